@@ -1115,7 +1115,9 @@ def judge(data, script, dec, expect_forward=None, cache_on=False, denied=None, e
         if outcome[0] in ('done', 'panic') and ndisc == 0:
             V.append(('C18', 'H/client-never-unregistered/' + outcome[0], 'the session is over (%s) but the client was never removed from the statistics' % (outcome,)))
         units = [r for r in data['reqs'] if r.get('origin') == 'client' and code_of(r['bytes']) in 'QS']
-        if outcome[0] == 'done' and not any(e[0] in ('statement_timeout',) for e in data['events']):
+        # (with statement caching on, which Sync units are the client's and which the pooler's own re-preparations is not decidable
+        # from the wire alone: the totals are judged with caching off)
+        if outcome[0] == 'done' and not cache_on and not any(e[0] in ('statement_timeout',) for e in data['events']):
             # (a request whose reply could not be written because the client had vanished may or may not have been counted)
             slack = 1 if data.get('client_write_failed') else 0
             want_q = len(units)
